@@ -321,7 +321,7 @@ def surface_stage(prop, tier, name):
     stage_spec(wd, ["Triomphe.tla"])
     res = {"name": name, "states": 0, "transitions": 0, "evaluations": 0, "nontrivial": 0, "traces": 0, "samples": [],
            "violations": [], "notes": [], "exhaustive": True, "detail": {}}
-    mod = ["---- MODULE MC_Surface ----", "EXTENDS Triomphe, Json", 'ASSUME PrintT(<<"SURFACE", ToJson([clone |-> CloneKinds, copy |-> CopyKinds])>>)', "===="]
+    mod = ["---- MODULE MC_Surface ----", "EXTENDS Triomphe, Json", 'ASSUME PrintT(<<"SURFACE", ToJson([clone |-> CloneKinds, copy |-> CopyKinds, unqlends |-> BorrowApis("Unq")])>>)', "===="]
     with open(os.path.join(wd, "MC_Surface.tla"), "w") as f:
         f.write("\n".join(mod) + "\n")
     cfg = ("SPECIFICATION Spec\nCONSTANTS\n  NSlots = 1\n  NBlocks = 1\n  MaxFrames = 0\n  CountBits = 8\n  KeepHist = FALSE\n"
@@ -358,6 +358,61 @@ def surface_stage(prop, tier, name):
                                       "errors": ["[kind] handle type %s: Clone = %s, Copy = %s; the specification has Clone = %s, Copy = %s "
                                                  "(a handle that can be duplicated without passing through the count is one more owner nobody counted)"
                                                  % (k, row["clone"], row["copy"], exp_clone, exp_copy)]})
+    for row in rows:
+        if row.get("fact") != "lends":
+            continue
+        n += 1
+        if row["present"] and row["api"] not in set(want.get("unqlends", [])):
+            res["violations"].append({"stage": name, "key": "surface:Unq:%s" % row["api"], "row": row,
+                                      "errors": ["[kind] UniqueArc answers `%s`: a unique handle lends no ArcBorrow and mints no Arc while it exists "
+                                                 "(BorrowApis(\"Unq\") = {} in the specification); through it safe code gives the 'unique' handle a co-owner" % row["api"]]})
     res["evaluations"] = res["traces"] = res["nontrivial"] = n
-    res["rule"] = "every handle type: has it a Clone / Copy impl"
+    res["rule"] = "every handle type: has it a Clone / Copy impl; does a UniqueArc answer one of the lending / minting calls of the other kinds"
+    return res
+
+
+def gates_stage(prop, tier, name, gates=None):
+    """the uniqueness gates at preset counts (1, 2, 3, 2^8 + 1, 2^16 + 1, 2^32 - 1, 2^32, 2^32 + 1, 2^33 + 1, 3 * 2^32 + 1, 2^48 + 1,
+    isize::MAX - 1, isize::MAX): Triomphe.tla's GateOpen(rc) == rc = 1 against what the crate's gates answer"""
+    wd = workdir(prop)
+    stage_spec(wd, ["Triomphe.tla"])
+    res = {"name": name, "states": 0, "transitions": 0, "evaluations": 0, "nontrivial": 0, "traces": 0, "samples": [],
+           "violations": [], "notes": [], "exhaustive": True, "detail": {}}
+    small = [1, 2, 3, 257, 65537, 2147483647]
+    mod = ["---- MODULE MC_Gates ----", "EXTENDS Triomphe, Json",
+           'ASSUME PrintT(<<"GATES", ToJson({[c |-> c, open |-> GateOpen(c)] : c \\in {%s}})>>)' % ", ".join(map(str, small)), "===="]
+    with open(os.path.join(wd, "MC_Gates.tla"), "w") as f:
+        f.write("\n".join(mod) + "\n")
+    cfg = ("SPECIFICATION Spec\nCONSTANTS\n  NSlots = 1\n  NBlocks = 1\n  MaxFrames = 0\n  CountBits = 8\n  KeepHist = FALSE\n"
+           '  Hows = {"new"}\n  Ops = {}\nCHECK_DEADLOCK FALSE\n')
+    out, st = run_tlc(wd, "MC_Gates.tla", cfg, name, workers=1, timeout=600, java_opts=["-Xmx2g"])
+    want = None
+    for line in open(out, errors="replace"):
+        if line.startswith('<<"GATES"'):
+            want = json.loads(line.rstrip()[len('<<"GATES", "'):-len('">>')].replace('\\"', '"'))
+    if want is None:
+        raise ToolError("TLC did not print the gate table: %s" % st)
+    res["states"], res["transitions"], res["tlc"] = st["distinct"], st["generated"], st
+    table = {r["c"]: r["open"] for r in want}
+    exe = build_harness("a")
+    outp = os.path.join(wd, name + ".gates.json")
+    r = subprocess.run([exe, "gates", outp], cwd=wd, stdout=subprocess.PIPE, stderr=subprocess.STDOUT, text=True, timeout=300)
+    if r.returncode != 0 or not os.path.exists(outp):
+        res["violations"].append({"stage": name, "key": "gates:crash", "errors": ["[crash] the gate run died (exit %s): %s" % (r.returncode, r.stdout[-300:])]})
+        return res
+    n = 0
+    for row in json.load(open(outp)):
+        if gates and not any(g in row["gate"] for g in gates):
+            continue
+        n += 1
+        c = int(row["count"], 16)
+        # beyond TLC's integers the same definition applies: the count is not 1, the gate is shut
+        exp = table.get(c, c == 1)
+        if row["granted"] != exp:
+            res["violations"].append({"stage": name, "key": "gates:%s:%s" % (row["gate"], row["count"]), "row": row,
+                                      "errors": ["[verdict] %s with a count of %s: the gate %s; the specification opens it iff the count is exactly 1 (GateOpen)"
+                                                 % (row["gate"], row["count"], "opened" if row["granted"] else "stayed shut")]})
+    res["evaluations"] = res["traces"] = n
+    res["nontrivial"] = n
+    res["rule"] = "every uniqueness gate at every preset count"
     return res
